@@ -16,3 +16,78 @@ PRED = {}
 def pred(f):
     PRED[f.__name__] = f
     return f
+
+
+@pred
+def multi_limb_u64(c):
+    """integer<n, uint64_t> with more than one limb"""
+    n, bt = cfg_ints(c)[:2]
+    return bt == 64 and n > 64
+
+
+def _lns_scale(n, r, enc):
+    """|E| / 2^r of an lns encoding (E = two's complement of the low n-1 bits)"""
+    m = enc & ((1 << (n - 1)) - 1)
+    if m >= 1 << (n - 2):
+        m -= 1 << (n - 1)
+    return abs(m) / float(1 << r)
+
+
+@pred
+def lns_addsub_beyond_double(c):
+    n, r = cfg_ints(c)[:2]
+    a = ints(c['args'])
+    if r >= 24:
+        return True
+    return any(_lns_scale(n, r, x) >= 1000 for x in a)
+
+
+def _cf(c):
+    n, es, sub, sup, sat = cfg_ints(c)[:5]
+    return n, es, sub, sup, sat, n - 1 - es
+
+
+def _mag(n, x):
+    return x & ((1 << (n - 1)) - 1)
+
+
+@pred
+def sat_overflow_gives_inf(c):
+    n, es, sub, sup, sat, fb = _cf(c)
+    i, m = ints(c['impl']), ints(c['model'])
+    if len(i) != 1 or len(m) != 1:
+        return False
+    top = ((1 << es) - 1) * (1 << fb) - 1
+    inf = (1 << (n - 1)) - 2
+    return sat == 1 and sup == 0 and _mag(n, m[0]) == top and _mag(n, i[0]) == inf and (i[0] >> (n - 1)) == (m[0] >> (n - 1))
+
+
+@pred
+def operand_is_inf_pattern(c):
+    n, es, sub, sup, sat, fb = _cf(c)
+    inf = (1 << (n - 1)) - 2
+    return sat == 1 and sup == 1 and any(_mag(n, x) == inf for x in ints(c['args']))
+
+
+@pred
+def wide_result_truncated(c):
+    """wide (> 64-bit significand) path of convert(): truncated instead of rounded (off by <= 2 units in the last
+    place), or an overflowing result, or a subnormal operand/result"""
+    n, es, sub, sup, sat, fb = _cf(c)
+    i, m = ints(c['impl']), ints(c['model'])
+    if len(i) != 1 or len(m) != 1:
+        return False
+    wide = (c['opname'] == 'mul' and fb >= 32) or (c['opname'] == 'div' and fb >= 20)
+    if not wide:
+        return False
+    same_sign = (i[0] >> (n - 1)) == (m[0] >> (n - 1))
+    near = same_sign and abs(_mag(n, i[0]) - _mag(n, m[0])) <= 2
+    overflow = _mag(n, m[0]) >= ((1 << es) - 1) << fb
+    subn = any((_mag(n, x) >> fb) == 0 for x in ints(c['args']) + m)
+    return near or overflow or subn
+
+
+@pred
+def u64_blocks_wide_significand(c):
+    n, es, sub, sup, sat, fb = _cf(c)
+    return cfg_ints(c)[5] == 64 and fb >= 32
